@@ -26,15 +26,18 @@ type H struct {
 	Steps []Step `json:"steps"`
 }
 
-const rule = "a 3-node Raft cluster (three RaftNodes over RocksDB in one executor child, loopback transport) under rapid-drawn fault sequences of 8-30 steps: single / bulk adds on whoever leads (about one sequence in four contains a bulk of 1001-2001 events), stop a follower (Close), restart it on its directories (catch-up by log replay), transfer leadership, check. At every check and at the end the cluster is awaited to quiescence (<=60 s) and all live replicas must report the same applied index and version, hold byte-identical hyper, hyper-cache, history and FSM-state tables, and each replica must answer sampled membership and consistency queries with proofs that verify against the snapshots the leaders returned to the client. Non-trivial: the sequence has a follower restart or a leadership transfer followed by >=1 add and a check. distinct = FNV-64 of the sequence."
+const rule = "a 3-node Raft cluster (three RaftNodes over RocksDB in one executor child, loopback transport) under rapid-drawn fault sequences of 8-30 steps: single / bulk adds on whoever leads (about one sequence in four contains a bulk of 1001-2001 events), stop a follower (Close), restart it on its directories (catch-up by log replay), transfer leadership, SIGKILL the process holding all replicas and restart them (at most once), check. At every check and at the end the cluster is awaited to quiescence (<=60 s) and all live replicas must report the same applied index and version, hold byte-identical hyper, hyper-cache, history and FSM-state tables, and each replica must answer sampled membership and consistency queries with proofs that verify against the snapshots the leaders returned to the client. Non-trivial: the sequence has a follower restart or a leadership transfer followed by >=1 add and a check. distinct = FNV-64 of the sequence."
 
 func TestReplicas(t *testing.T) {
 	rec := pbt.NewRec("C06", "TestReplicas", rule, "no network partitions or message loss are generated (no transport hook); replicas share a process, clock and scheduler")
 	pbt.Run(t, rec, func(rt *rapid.T) H {
 		var h H
-		seq, stopped, big := 0, false, false
+		seq, stopped, big, crashed := 0, false, false, false
 		for i, n := 0, rapid.IntRange(8, pbt.Scale(18, 30)).Draw(rt, "nsteps"); i < n; i++ {
-			ops := []string{"add", "add", "add", "transfer", "check"}
+			ops := []string{"add", "add", "add", "add", "add", "transfer", "transfer", "check", "check"}
+			if !stopped && !crashed {
+				ops = append(ops, "crash-all")
+			}
 			if stopped {
 				ops = append(ops, "restart", "restart")
 			} else {
@@ -63,6 +66,9 @@ func TestReplicas(t *testing.T) {
 			case "restart":
 				stopped = false
 				h.Steps = append(h.Steps, Step{Op: "restart"})
+			case "crash-all":
+				crashed = true
+				h.Steps = append(h.Steps, Step{Op: "crash-all"}, Step{Op: "check"})
 			default:
 				h.Steps = append(h.Steps, Step{Op: op})
 			}
@@ -78,11 +84,12 @@ func exec(h H, rec *pbt.Rec) error {
 	if err != nil {
 		return unsettled("executor: %v", err)
 	}
-	defer x.Kill()
 	c, err := rig.NewCluster(x, 3, xp.NodeOpts{TimeoutMs: 300, SnapshotThreshold: 1 << 30, TrailingLogs: 1 << 20})
 	if err != nil {
+		x.Kill()
 		return unsettled("cluster boot: %v", err)
 	}
+	defer func() { c.X.Kill() }()
 	stopped := ""
 	faultThenAdd, ntDone := false, false
 	fault := false
@@ -164,6 +171,18 @@ func exec(h H, rec *pbt.Rec) error {
 			}
 			fault = true
 			rec.Class("leader-transfer", 1)
+		case "crash-all":
+			if stopped != "" {
+				continue
+			}
+			if err := c.CrashAll(); err != nil {
+				if _, dead := err.(*rig.Death); dead {
+					return fmt.Errorf("step %d: after a SIGKILL of all replicas the cluster cannot be restarted: %v", si, err)
+				}
+				return unsettled("crash-all: %v", err)
+			}
+			fault = true
+			rec.Class("crash-all", 1)
 		case "check":
 			if err := check(fmt.Sprintf("step %d", si)); err != nil {
 				return err
